@@ -562,7 +562,7 @@ def bound(ctx: Any) -> List[Ob]:
     t = norm(e)
     obs.append(ob(R, ic, e, 'complete means: text present and at least one IPv4 or IPv6 address', 'self.text is not None' in t and '_ipv4_addresses or' in t and '_ipv6_addresses' in t and ' and ' in t))
     lt = loop_t[0]
-    obs.append(ob(R, f, f'while {norm(lt.ast)}', 'the loop runs exactly while the description is incomplete, and a completed loop returns True', norm(lt.ast) == f'not {me}._is_complete' and any(isinstance(r, ast.Return) and norm(r.value) == 'True' for r in f.node.body)))
+    obs.append(ob(R, f, f'while {norm(lt.ast)}', 'the loop runs exactly while the description is incomplete, and a completed loop returns True', norm(lt.ast) == f'not {me}._is_complete' and any(isinstance(r, ast.Return) and r.value is not None and norm(r.value) == 'True' for r in walk_local_ordered(f.node))))
     # sync wrapper bound
     rq = prog.func(INFO + '.request')
     rc = [c for c in walk_local_ordered(rq.node) if isinstance(c, ast.Call) and call_name(c) == 'run_coro_with_timeout']
